@@ -150,7 +150,7 @@ Lemma use_leaves_sim : forall ls t0 s s' sf t, use_leaves s ls = Ok s' -> ext s'
   exists t', sem_use t ls = Fine t' /\ R t0 s' t' /\ scopeK s' /\ ext s s'.
 Proof.
   induction ls as [|l r IH]; intros t0 s s' sf t Hrun Hext HU HK HR HS; simpl in *.
-  - inversion Hrun; subst. exists t. repeat split; auto; try apply HS. apply ext_refl.
+  - inversion Hrun; subst. exists t. split; [reflexivity|]. split; [exact HR|]. split; [exact HS|]. apply ext_refl.
   - assert (Hl : l_kind l = K (l_id l)) by (apply HK; simpl; auto).
     destruct (used s (l_id l)) as [u|] eqn:Hu; [|discriminate].
     destruct (u && negb (is_copy (l_kind l))) eqn:Hbad; [discriminate|].
@@ -165,7 +165,7 @@ Proof.
         + intros Hc. rewrite Hc in Hbad. simpl in Hbad. rewrite andb_true_r in Hbad.
           assert (Kx : K (l_id l) <> KCopy) by (rewrite <- Hl; destruct (l_kind l); simpl in Hc; congruence).
           destruct (HR _ Kx) as [A _]. rewrite (A Hv), Hbad. reflexivity.
-        + intros y Hy. destruct (HR y Hy) as [A B]. simpl. rewrite memb_cons. split.
+        + intros y Hy. destruct (HR y Hy) as [A B]. cbn [s_vars s_ul s_pul s_up s_entry s_pvars]. rewrite ?memb_cons. split.
           * intros Hvy. destruct (Nat.eqb y (l_id l)) eqn:E.
             -- apply Nat.eqb_eq in E. subst y. simpl.
                destruct (is_copy (l_kind l)) eqn:Hc.
@@ -195,7 +195,7 @@ Proof.
               destruct (use_leaf s0 (l_id a)) eqn:E; [|discriminate].
               eapply ext_trans; [eapply use_leaf_ext; eauto | eapply IHr; eauto]. }
           destruct E2 as [_ [_ [J3 _]]]. apply J3. simpl. auto.
-        + intros y Hy. destruct (HR y Hy) as [A B]. simpl. rewrite memb_cons. split.
+        + intros y Hy. destruct (HR y Hy) as [A B]. cbn [s_vars s_ul s_pul s_up s_entry s_pvars]. rewrite ?memb_cons. split.
           * intros Hvy. assert (y <> l_id l) by (intros E; subst; congruence).
             rewrite <- (A Hvy). destruct (is_copy (l_kind l)); auto. unfold upd.
             apply Nat.eqb_neq in H. rewrite H. auto.
@@ -210,8 +210,8 @@ Proof.
     + intros l' H. apply HK. simpl. auto.
     + eapply use_leaf_K; eauto.
     + exists t'. destruct (is_copy (l_kind l)) eqn:Hc.
-      * repeat split; auto. eapply ext_trans; eauto.
-      * rewrite (Hfull eq_refl). repeat split; auto. eapply ext_trans; eauto.
+      * split; [exact A|]. split; [exact B|]. split; [exact C|]. eapply ext_trans; eauto.
+      * rewrite (Hfull eq_refl). split; [exact A|]. split; [exact B|]. split; [exact C|]. eapply ext_trans; eauto.
 Qed.
 
 Lemma assign_checked_ext : forall ls s s', assign_leaves_checked s ls = Ok s' -> ext s s'.
@@ -227,7 +227,7 @@ Lemma assign_checked_sim : forall ls t0 s s' sf t, assign_leaves_checked s ls = 
   exists t', sem_assign t ls = Fine t' /\ R t0 s' t' /\ scopeK s' /\ ext s s'.
 Proof.
   induction ls as [|l r IH]; intros t0 s s' sf t Hrun Hext HD HK HR HS; simpl in *.
-  - inversion Hrun; subst. exists t. repeat split; auto; try apply HS. apply ext_refl.
+  - inversion Hrun; subst. exists t. split; [reflexivity|]. split; [exact HR|]. split; [exact HS|]. apply ext_refl.
   - assert (Hl : l_kind l = K (l_id l)) by (apply HK; simpl; auto).
     match type of Hrun with (if ?b then _ else _) = _ => destruct b eqn:Hbad end; [discriminate|].
     assert (Hext1 : ext (assign_leaf s l) s') by (apply assign_checked_ext with (ls := r); auto).
@@ -257,8 +257,8 @@ Proof.
     + apply assign_leaf_R; auto.
     + apply assign_leaf_K; auto.
     + exists t'. destruct (is_copy (l_kind l)) eqn:Hc.
-      * repeat split; auto. eapply ext_trans; [apply assign_leaf_ext | eauto].
-      * rewrite (Hno eq_refl). repeat split; auto. eapply ext_trans; [apply assign_leaf_ext | eauto].
+      * split; [exact A|]. split; [exact B|]. split; [exact C|]. eapply ext_trans; [apply assign_leaf_ext | eauto].
+      * rewrite (Hno eq_refl). split; [exact A|]. split; [exact B|]. split; [exact C|]. eapply ext_trans; [apply assign_leaf_ext | eauto].
 Qed.
 
 Lemma step_event_sim : forall e t0 s s' sf t, step_event fin s e = Ok s' -> ext s' sf ->
@@ -271,7 +271,7 @@ Proof.
   - match type of Hrun with (if ?b then _ else _) = _ => destruct b end; [discriminate|].
     eapply assign_checked_sim; eauto.
   - destruct (input_is_borrowed fin (p_id p)); [discriminate|]. inversion Hrun; subst.
-    exists t. repeat split; auto; try apply HS. apply ext_refl.
+    exists t. split; [reflexivity|]. split; [exact HR|]. split; [exact HS|]. apply ext_refl.
   - inversion Hrun; subst. destruct (assign_leaves_sim (leaves (p_tree p)) t0 s t HK HR HS) as [A [B C]].
     eexists. split; [reflexivity|]. auto.
   - discriminate.
